@@ -5,15 +5,17 @@
 (* variable, value) is the `last` of some enabled specification step.         *)
 EXTENDS TraceBatch
 CONSTANTS Script, NEvents, Faulty, Stoppers, OnStart, OnStop, Fixes, AnyTimeout
-VARIABLES rs, rep, runflag, fin, flag, next, cur, endsOK, res, startsOK, segments, lateStop, staleStart, lateEnd, staleEnd, earlyStop, selfStart, usedStart, usedStop, hret, wrote, afterStop, ctimedout, wtimedout, last, pc, i, ok
+VARIABLES rs, rep, runflag, fin, flag, next, cur, endsOK, res, startsOK, segments, lateStop, staleStart, lateEnd, staleEnd, earlyStop, selfStart, pendingStart, cleaned, usedStart, usedStop, hret, wrote, afterStop, ctimedout, wtimedout, last, pc, i, ok
 ST == INSTANCE SimThreads
-stvars == <<rs, rep, runflag, fin, flag, next, cur, endsOK, res, startsOK, segments, lateStop, staleStart, lateEnd, staleEnd, earlyStop, selfStart, usedStart, usedStop, hret, wrote, afterStop, ctimedout, wtimedout, last, pc, i, ok>>
+stvars == <<rs, rep, runflag, fin, flag, next, cur, endsOK, res, startsOK, segments, lateStop, staleStart, lateEnd, staleEnd, earlyStop, selfStart, pendingStart, cleaned, usedStart, usedStop, hret, wrote, afterStop, ctimedout, wtimedout, last, pc, i, ok>>
 TraceInit == BatchInit /\ ST!Init
 Step == /\ Live /\ Consume /\ ST!Next
         /\ last'.t = Ev.t /\ last'.k = Ev.k /\ last'.v = Ev.v /\ last'.x = Ev.x
 TraceSpec == TraceInit /\ [][Step]_<<tid, l, stvars>>
 InvNoStuckStateK == ST!NoStuckStateK
-InvNoLostStartK == ST!NoLostStartK
+InvStartEffectiveK == ST!StartEffectiveK
+InvNoSpuriousSegment == ST!NoSpuriousSegment
+InvCleanupFinalK == ST!CleanupFinalK
 InvEndedFinalK == ST!EndedFinalK
 InvThreadGoneK == ST!ThreadGoneK
 InvRefused == ST!RefusedWroteNothing
